@@ -46,7 +46,9 @@ def deployment(inst, dep, algo="dsa", style=0):
     return dcop, cg, algo_def, Distribution(mapping), names, comps
 
 
-def one_run(hid, inst, dep, sseed, style=0):
+def one_run(hid, inst, dep, sseed, style=0, depart=False):
+    """-> list of (record, meta); depart: after the replication an agent that holds replicas leaves (it is stopped, nothing is
+    repaired): the owners that lose a replica look for a new host, and those acceptances are judged like the first ones"""
     r = random.Random(sseed)
     dcop, cg, algo_def, dist, names, comps = deployment(inst, dep, style=style)
     w = OrchWorld(dcop, algo_def, cg, dist, infinity=10000, replication="dist_ucs_hostingcosts", seed=sseed)
@@ -63,12 +65,29 @@ def one_run(hid, inst, dep, sseed, style=0):
     dd = w.orch.directory.discovery
     dirreps = {c: sorted(dd._replicas_data[c]) if c in dd._replicas_data else [] for c in comps}
     exc = ["%s: %s" % (e[0], e[4]) for e in w.exc]
-    scale = 1
-    return {"id": hid, "agents": names, "comps": comps, "cap": {a: (100 if style else dep["cap"][i]) for i, a in enumerate(names)},
-            "owner": {c: dist.agent_for(c) for c in comps}, "fp": {c: int(fp[c]) for c in comps}, "k": dep["k"],
-            "done": done, "hosts": hosts, "held": held, "dirReps": dirreps,
-            "accepts": [{"a": x["a"], "c": x["c"], "held": x["held"]} for x in w.accepts], "exc": exc}, \
-        {"shape": inst["shape"], "dep": dep, "stuck": stuck, "steps": dict(w.phase_steps), "inst": inst, "fp_float": fp, "sched_seed": sseed, "style": style}
+    cap = {a: (100 if style else dep["cap"][i]) for i, a in enumerate(names)}
+    owner = {c: dist.agent_for(c) for c in comps}
+    meta = {"shape": inst["shape"], "dep": dep, "stuck": stuck, "steps": dict(w.phase_steps), "inst": inst, "fp_float": fp, "sched_seed": sseed,
+            "style": style, "depart": depart, "phase": 1}
+    out = [({"id": hid, "agents": names, "comps": comps, "cap": cap, "owner": owner, "fp": {c: int(fp[c]) for c in comps}, "k": dep["k"],
+             "done": done, "hosts": hosts, "held": held, "dirReps": dirreps,
+             "accepts": [{"a": x["a"], "c": x["c"], "held": x["held"]} for x in w.accepts], "exc": exc}, meta)]
+    holders = [a for a in names if held[a]]
+    if depart and not stuck and not exc and holders and len(names) >= 4:
+        from pydcop.infrastructure.orchestrator import AgentRemovedMessage
+        # the agent that holds replicas of the most owners leaves
+        x = max(holders, key=lambda a: (len({owner[c] for c in held[a]}), len(held[a]), r.random()))
+        n0, e0 = len(w.accepts), len(w.exc)
+        w.orch.mgt._send_mgt_msg(x, AgentRemovedMessage())
+        w.phase_steps["departure"] = w.run(max_steps=6000)
+        exc2 = ["%s: %s" % (e[0], e[4]) for e in w.exc[e0:]]
+        acc2 = [{"a": y["a"], "c": y["c"], "held": y["held"]} for y in w.accepts[n0:]]
+        # (only the acceptances are judged: what the placement must look like after a departure is not part of the statement)
+        out.append(({"id": hid + 1, "agents": names, "comps": comps, "cap": cap, "owner": owner, "fp": {c: int(fp[c]) for c in comps}, "k": dep["k"],
+                     "done": names, "hosts": {c: [] for c in comps}, "held": {a: [] for a in names}, "dirReps": {c: [] for c in comps},
+                     "accepts": acc2, "exc": exc2},
+                    dict(meta, phase=2, left=x, steps=dict(w.phase_steps))))
+    return out
 
 
 def run(tier):
@@ -90,9 +109,9 @@ def run(tier):
                     style = rep % 2 if len(recs) % 5 else 2
                     # (the tie-heavy style is about the replica count: it needs k >= 2 and more candidates than replicas)
                     d2 = dict(dep, k=min(max(dep["k"], 2), nag - 2)) if style == 1 and nag >= 4 else dep
-                    rec, m = one_run(len(recs), inst, d2, r.randrange(10 ** 6), style=style)
-                    meta[rec["id"]] = m
-                    recs.append(rec)
+                    for rec, m in one_run(len(recs), inst, d2, r.randrange(10 ** 6), style=style, depart=(rep == 0 and nag >= 4)):
+                        meta[rec["id"]] = m
+                        recs.append(rec)
     verdicts, jres = judge("Judge_C25", recs, chunk=400)
     v.add_tlc(jres, "outcome of %d replications judged (Judge_C25 / Replication.tla)" % len(recs))
     for rec in recs:
@@ -102,15 +121,25 @@ def run(tier):
         if rec["accepts"]:
             v.cov["distinct_nontrivial"] += 1
         for clause in verdicts[rec["id"]]:
-            v.violation({"clause": clause, "k": rec["k"]},
-                        "%s (shape %s, %d agents, k=%d): hosts %s, done %s, %s" % (clause, m["shape"], len(rec["agents"]), rec["k"], rec["hosts"], rec["done"], rec["exc"][:1]),
-                        {"inst": m["inst"], "dep": m["dep"], "sched_seed": m["sched_seed"], "style": m["style"], "outcome": rec})
+            key = {"clause": clause, "k": rec["k"]}
+            if m["phase"] == 2:
+                key["after_departure"] = True
+            v.violation(key,
+                        "%s (shape %s, %d agents, k=%d%s): hosts %s, done %s, %s" % (clause, m["shape"], len(rec["agents"]), rec["k"],
+                                                                                   ", after %s left" % m["left"] if m["phase"] == 2 else "",
+                                                                                   rec["hosts"], rec["done"], rec["exc"][:1]),
+                        {"inst": m["inst"], "dep": m["dep"], "sched_seed": m["sched_seed"], "style": m["style"], "depart": m["depart"],
+                         "phase": m["phase"], "outcome": rec})
         if not verdicts[rec["id"]] and len(rec["accepts"]) >= 4:
             v.sample({"shape": m["shape"], "caps": rec["cap"], "k": rec["k"], "footprints": rec["fp"], "hosts": rec["hosts"], "accepts": len(rec["accepts"])}, cap=3)
+    v.cov["departure_phases"] = sum(1 for rec in recs if meta[rec["id"]]["phase"] == 2)
+    v.cov["acceptances_after_a_departure"] = sum(len(rec["accepts"]) for rec in recs if meta[rec["id"]]["phase"] == 2)
     v.cov["exhaustive"] = False
     v.cov["rule"] = ("DCOPs over 9 shapes (3-5 computations, DSA computations with their real footprints) deployed on 3-4 (quick) / 3-6 agents with TLC-drawn "
                      "capacities {3,4,6,9,100} (DSA footprints are 1-4), symmetric route costs {1,2,5}, hosting costs {0,3,8} with lower-case agent names or - every other run - {1,2,5} (ties with the route costs), ample capacities and upper-case names, or - one run in five - decimal costs (0.1 .. 0.7) (which sort before the search's own '__hosting__' node), placements and k in 1..3; 2 (quick) / 6 seeded interleavings of agent "
-                     "loop iterations per deployment; non-trivial = at least one replica was accepted")
+                     "loop iterations per deployment; with 4 agents or more, the first run of each deployment goes on with the departure of the agent that "
+                     "holds replicas of the most owners (stopped, no repair) and the acceptances of the re-replication are judged by the same rule; "
+                     "non-trivial = at least one replica was accepted")
     v.cov["trusted_base"] = ["TLC (Replication.tla)", "vlib/orchrt.py + vlib/agentrt.py", "the acceptance recorder wrapped around UCSReplication._accept_replica"]
     v.assumptions = ["route tables are symmetric (the YAML format enforces it; the UCS budget arithmetic assumes it)",
                      "footprints are compared as integers (DSA footprints are whole numbers)"]
@@ -118,7 +147,8 @@ def run(tier):
 
 
 def replay(path):
-    d = json.load(open(path))
-    rec, m = one_run(0, d["replay"]["inst"], d["replay"]["dep"], d["replay"]["sched_seed"], d["replay"].get("style", 0))
+    d = json.load(open(path))["replay"]
+    out = one_run(0, d["inst"], d["dep"], d["sched_seed"], d.get("style", 0), d.get("depart", False))
+    rec = out[min(d.get("phase", 1), len(out)) - 1][0]
     print(json.dumps(rec))
     return 1 if rec["exc"] or len(rec["done"]) != len(rec["agents"]) else 0
